@@ -413,3 +413,80 @@ Definition expected_facts : list (string * list string) := [
   ("register_secure_model_hooks", ["for sec_model_class in utils.iter_subclasses(MistralSecureModelBase)"; "if '__abstract__' not in sec_model_class.__dict__"; "listen(sec_model_class.project_id, 'set', _set_project_id, retval=True)"]);
   ("update_resource_member", ["if member_id != security.get_project_id(): raise exc.DBEntityNotFoundError"; "if not res_member: raise exc.DBEntityNotFoundError"; ".filter_by(resource_type=res_type)"; ".first()"; ".update()"; "_secure_query(models.ResourceMember)"; "_get_criterion(resource_id, member_id, is_owner=False)"])
 ].
+
+(* ---- the REST list layer -----------------------------------------------------------
+   Anchors:
+     mistral/utils/rest_utils.py:get_all       the `insecure` decision (a disjunction of conditions, extracted into
+                                               Gen.RestLists.insecure_cond) handed to the db-api list function
+     mistral/api/controllers/v2/*.py           every method that ends in rest_utils.get_all: the policy rule enforced
+                                               first, the gate of '<x>:list:all_projects', whether all_projects and a
+                                               project_id filter are passed on (Gen.RestLists.rest_lists)
+     mistral/policies/*.py                     default check string of each rule (admin_only / admin_or_owner)
+   Correspondence suite: harness/suites/C15.py (suite rest_lists, the real pecan application). *)
+
+Inductive icond := IAllProjects | IAdmin | IFilterProjectId.
+Inductive rule := RAdminOnly | RAdminOrOwner.
+(* when the controller enforces '<x>:list:all_projects' *)
+Inductive gate := GateNever | GateAllp | GateAllpOrPid.
+
+Record list_ep := mkListEp {
+  le_model : model;
+  le_fn : string;            (* the db-api list function *)
+  le_rule : rule;            (* '<x>:list', enforced unconditionally *)
+  le_gate : gate;
+  le_allp_rule : rule;       (* '<x>:list:all_projects' *)
+  le_pass_allp : bool;       (* all_projects is handed to rest_utils.get_all *)
+  le_pass_pid : bool         (* a project_id filter can reach rest_utils.get_all *)
+}.
+
+(* one list request: all_projects, project_id filter, name filter *)
+Record lreq := mkLreq { lq_allp : bool; lq_pid : option nat; lq_name : option nat }.
+
+Inductive lresult := LForbidden | LOk (l : list res).
+
+(* oslo.policy defaults: admin_only = is_admin:True; admin_or_owner = is_admin:True or project_id:%(project_id)s
+   with the target project taken from the caller's own context (access_control.enforce): always satisfied *)
+Definition rule_ok (r : rule) (admin : bool) : bool :=
+  match r with RAdminOnly => admin | RAdminOrOwner => true end.
+
+Definition gate_fires (g : gate) (allp pid_set : bool) : bool :=
+  match g with GateNever => false | GateAllp => allp | GateAllpOrPid => allp || pid_set end.
+
+Definition icond_holds (i : icond) (allp pid_set admin : bool) : bool :=
+  match i with IAllProjects => allp | IAdmin => admin | IFilterProjectId => pid_set end.
+
+Definition is_some {A : Type} (o : option A) : bool := match o with Some _ => true | None => false end.
+
+(* the insecure flag rest_utils.get_all computes for a request that passed the gates *)
+Definition rest_insecure (ic : list icond) (ep : list_ep) (allp_req pid_req admin : bool) : bool :=
+  existsb (fun i => icond_holds i (le_pass_allp ep && allp_req) (le_pass_pid ep && pid_req) admin) ic.
+
+Definition rest_args (ep : list_ep) (insecure : bool) (r : lreq) : args :=
+  mkArgs (le_model ep) 0 None insecure 0 (lq_name r) (if le_pass_pid ep then lq_pid r else None)
+         0 0 0 Private 0 None None None.
+
+(* q is the query mode of the db-api list function (its shape is SList q) *)
+Definition rest_list (ic : list icond) (ep : list_ep) (q : qmode) (d : db) (c : ctx) (r : lreq) : lresult :=
+  let allp := lq_allp r in
+  let pid := is_some (lq_pid r) in
+  if negb (rule_ok (le_rule ep) (c_admin c)) then LForbidden
+  else if gate_fires (le_gate ep) allp pid && negb (rule_ok (le_allp_rule ep) (c_admin c)) then LForbidden
+  else
+    let a := rest_args ep (rest_insecure ic ep allp pid (c_admin c)) r in
+    LOk (filter (filters_match a) (candidates (mkFetch q SelAll) d c a)).
+
+Definition rest_view (ic : list icond) (ep : list_ep) (q : qmode) (d : db) (c : ctx) (r : lreq) : string * list nat :=
+  match rest_list ic ep q d c r with
+  | LForbidden => ("forbidden", [])
+  | LOk l => ("ok", map r_id l)
+  end.
+
+(* facts about rest_utils.get_all and the policy base rules the model relies on (compared in Properties/C15.v) *)
+Definition expected_rest_facts : list (string * list string) := [
+  ("access_control.enforce", ["target_obj='project_id':context.project_id, 'user_id':context.user_id";
+                              "policy_context['is_admin']=context.is_admin"; "target_obj.update(target or {})";
+                              "authorize(action, target_obj, policy_context)"]);
+  ("policy.base", ["admin_only=is_admin:True"; "admin_or_owner=is_admin:True or project_id:%(project_id)s"]);
+  ("rest_utils.get_all", ["param all_projects=False"; "insecure = False";
+                          "get_all_function(..., insecure=insecure, **filters) x2"; "no other assignment to insecure"])
+].
